@@ -42,3 +42,39 @@ class ToMarkovModel(Contract):
 
 
 register(ToMarkovModel())
+
+
+class IsClique(Contract):
+    file = "pgmpy/base/UndirectedGraph.py"
+    qual = "UndirectedGraph.is_clique"
+
+    def variants(self, ex):
+        from .common import atom_list
+        g = new_graph("UndirectedGraph", "ug", directed=False, latents=False)
+        yield "nodes=set", {"self": g, "nodes": atom_list("S", "set")}, {}
+
+    def pre(self, ex, st, args):
+        return wf_graph(args["self"])
+
+    def snapshot(self, ex, st, args):
+        return graph_snapshot(args["self"])
+
+    def post(self, ex, st, args, old, result):
+        from vf.pyvc.engine import Scalar
+        if not isinstance(result, Scalar):
+            return z3.BoolVal(False)
+        S, E = args["nodes"].mem, old["_E"]
+        a, b = fresh("a", Atom), fresh("b", Atom)
+        return z3.And(result.z == z3.ForAll([a, b], z3.Implies(z3.And(S[a], S[b], a != b), E[a, b])), graph_unchanged(args["self"], old))
+
+    def inv0(self, ex, st, args, old, ghost):
+        from vf.pyvc.lib import PairAA
+        done = ghost["done"]
+        a, b = fresh("a", Atom), fresh("b", Atom)
+        E = old["_E"]
+        return z3.And(z3.ForAll([a, b], z3.Implies(done[PairAA.mk(a, b)], E[a, b])), graph_unchanged(args["self"], old))
+
+    invariants = property(lambda self: {0: self.inv0})
+
+
+register(IsClique())
